@@ -247,6 +247,8 @@ struct Setup {
     ty: usize,
     own: u16,
     foreign: u16,
+    /// kind of error object the scripted bus fails with (custom error, io::Error of several kinds, wrapped io::Error)
+    flavour: u8,
 }
 
 fn mk_pages(ty: usize, n: usize, rng: &mut Rng) -> Vec<Page<'static>> {
@@ -387,7 +389,7 @@ fn prelude_policy(p: &'static Prelude) -> Box<dyn FnMut(usize, &'static str) -> 
 
 /// A fresh session, with the prelude (if any) already performed on its `Sign`.
 fn session_after(setup: &Setup, prelude: Option<(&'static Prelude, &[Page<'static>])>) -> (Session, Option<Conversation>) {
-    let mut sess = Session::new(setup.own, setup.foreign, setup.ty);
+    let mut sess = Session::new(setup.own, setup.foreign, setup.ty).with_error_flavour(setup.flavour);
     let pc = prelude.map(|(p, pages)| sess.call(&p.op, pages, vec![], 400, prelude_policy(p), false));
     (sess, pc)
 }
@@ -483,7 +485,9 @@ fn random_conversation(ctx: &Ctx, rng: &mut Rng, invariants_mode: bool, rep: &mu
     let pick = Box::new(move |_d: usize, _p: &'static str| if pr.chance(4, 5) { *pr.pick(&good_for_pick) } else { pr.below(N_SYMBOLS as u64) as u16 });
     let _ = ctx;
     // half of the random conversations are held with a Sign object that has already made one to three random calls
-    let mut sess = Session::new(own, foreign, ty);
+    let flavour = rng.below(6) as u8;
+    rep.seen("bus_error_flavours", u64::from(flavour));
+    let mut sess = Session::new(own, foreign, ty).with_error_flavour(flavour);
     if rng.chance(1, 2) {
         for _ in 0..1 + rng.usize(3) {
             let op0 = OPS_ALL[rng.usize(6)].clone();
@@ -504,18 +508,18 @@ fn random_conversation(ctx: &Ctx, rng: &mut Rng, invariants_mode: bool, rep: &mu
 pub fn run(ctx: &Ctx, invariants_mode: bool) -> Outcome {
     let setups: Vec<Setup> = if ctx.quick() {
         vec![
-            Setup { ty: 5, own: 3, foreign: 2 },
-            Setup { ty: 5, own: 0xFFFF, foreign: 0x7FFF },
-            Setup { ty: 8, own: 3, foreign: 0x8003 },
-            Setup { ty: 2, own: 0x80, foreign: 0x81 },
-            Setup { ty: 3, own: 0, foreign: 1 },
-            Setup { ty: 8, own: 0x80, foreign: 0x8080 },
+            Setup { ty: 5, own: 3, foreign: 2, flavour: 3 },
+            Setup { ty: 5, own: 0xFFFF, foreign: 0x7FFF, flavour: 1 },
+            Setup { ty: 8, own: 3, foreign: 0x8003, flavour: 0 },
+            Setup { ty: 2, own: 0x80, foreign: 0x81, flavour: 2 },
+            Setup { ty: 3, own: 0, foreign: 1, flavour: 5 },
+            Setup { ty: 8, own: 0x80, foreign: 0x8080, flavour: 4 },
         ]
     } else {
         let mut v = vec![];
         for ty in 0..TYPES.len() {
             for (i, own) in [0u16, 3, 0x80, 0xFFFF].into_iter().enumerate() {
-                v.push(Setup { ty, own, foreign: if (ty + i) % 2 == 0 { own ^ 1 } else { own ^ 0x8000 } });
+                v.push(Setup { ty, own, foreign: if (ty + i) % 2 == 0 { own ^ 1 } else { own ^ 0x8000 }, flavour: ((ty + i) % 6) as u8 });
             }
         }
         v
@@ -565,6 +569,7 @@ pub fn run(ctx: &Ctx, invariants_mode: bool) -> Outcome {
         if shard < nj {
             let j = &jobs[shard];
             let s = &setups[j.setup];
+            rep.seen("bus_error_flavours", u64::from(s.flavour));
             let mut rng = ctx.rng("pages", (j.setup * 16 + j.n_pages) as u64);
             let pages = mk_pages(s.ty, j.n_pages, &mut rng);
             if dfs(s, &j.op, &pages, j.first, poll_bound, invariants_mode, j.prelude, rep) {
@@ -583,6 +588,7 @@ pub fn run(ctx: &Ctx, invariants_mode: bool) -> Outcome {
     let mut floors = vec![
         floor("every DFS subtree enumerated to its end", report.get("dfs_subtrees_completed") == nj as u64, report.get("dfs_subtrees_completed")),
         floor("every canned earlier call performed, then every operation enumerated on the same Sign object", report.set_len("preludes_performed") >= PRELUDES.len() as u64 && report.get("conversations_with_a_reused_sign_object") > 100_000, format!("{} preludes, {} conversations", report.set_len("preludes_performed"), report.get("conversations_with_a_reused_sign_object"))),
+        floor("bus errors of every kind (custom, io::Error Interrupted / TimedOut / WouldBlock, wrapped io::Error)", report.set_len("bus_error_flavours") == 6, report.set_len("bus_error_flavours")),
         floor("every reply symbol offered at every protocol position", n_positions >= 16 && cells == n_positions * N_SYMBOLS as u64, format!("{} cells over {} positions", cells, n_positions)),
         floor("ok / protocol error / bus error observed for every operation", (0..6u64).all(|o| (0..3u64).all(|k| report.sets.get("op_x_outcome").map(|s| s.contains(&(o * 4 + k))).unwrap_or(false))), report.set_len("op_x_outcome")),
     ];
